@@ -11,7 +11,8 @@ package xsub
 //@   lock Mutex level 20
 //@   guarded_by Mutex: closed recvQLen recvExpire recvQ sizeQ
 //@   immutable: closeQ
-//@   elem_invariant recvQ: !shared(elem)
+//@   never_closed: recvQ
+//@   elem_invariant recvQ: elem != nil && !shared(elem)
 //@
 // ---- generated option contracts (tools/gen_option_contracts.py) ----
 //@ func (*socket).SetOption
@@ -31,3 +32,11 @@ package xsub
 //@   ensures option == protocol.OptionRaw ==> isnil(result1) && result0 == iface(true)
 //@
 // ---- end generated option contracts ----
+//@
+//@ func (*socket).OpenContext
+//@   modifies none
+//@   ensures isnil(result0) && result1 == protocol.ErrProtoOp
+//@
+//@ func (*socket).SendMsg
+//@   modifies none
+//@   ensures result == protocol.ErrProtoOp
